@@ -169,6 +169,8 @@ func stack() []byte {
 	return b[:runtime.Stack(b, false)]
 }
 
+var hugeLiteral = regexp.MustCompile(`[0-9]{7,}`)
+
 var frameRe = regexp.MustCompile(`github\.com/open2b/scriggo[^\s(]*\.([A-Za-z_(*)\.0-9]+)\(`)
 
 // firstFrame returns the first scriggo function in a stack dump (the identity of a crash site).
@@ -224,6 +226,10 @@ func worker() {
 			code, w := buildOnce(r, s)
 			if code == ocHang {
 				oc[ri], where = code, w
+				if hugeLiteral.Match(s) {
+					// identity of the known resource-exhaustion finding (huge array types); any other hang is a different finding
+					where += "|source has a 7+ digit literal"
+				}
 				writeObs(out, c, oc[:ri+1], where)
 				os.Exit(3)
 			}
